@@ -222,8 +222,8 @@ impl Property for C18 {
     }
     fn cases(&self, tier: Tier) -> u32 {
         match tier {
-            Tier::Quick => 60_000,
-            Tier::Thorough => 800_000,
+            Tier::Quick => 2_000_000,
+            Tier::Thorough => 20_000_000,
         }
     }
     fn rule(&self) -> String {
